@@ -352,6 +352,61 @@ theorem go_error_of_scan_panic (fuel : Nat) (rest : Bytes) (hz : ∀ c ∈ rest,
         · simp [hd] at hpn
       · simp at hpn
 
+/-! ## the item step -/
+
+/-- with `item[n]`, `snprintf(item, n, …)` and the test `nb >= n` (n ≥ 1): the item is appended exactly or the call raises -/
+theorem itemStep_ge (n : Nat) (hn : 1 ≤ n) (out full : Bytes) :
+    itemStep n n n true out full = if full.length ≥ n then .panic else .ok (out ++ full) := by
+  unfold itemStep snprintfItem
+  have hb : ¬ n = 0 := by omega
+  have hk : ¬ (List.take (n - 1) full).length + 1 > n := by simp only [List.length_take]; omega
+  simp only [hb, hk, if_false, R.ok_bind, if_true]
+  by_cases hL : full.length ≥ n
+  · have : ((full.length : Int) ≥ (n : Int)) := by exact_mod_cast hL
+    simp [hL, this]
+  · have h1 : ¬ ((full.length : Int) ≥ (n : Int)) := by omega
+    simp only [h1, hL, if_false]
+    by_cases h0 : (full.length : Int) > 0
+    · simp only [h0, if_true]
+      unfold pushItem
+      have hneg : ¬ ((full.length : Int) < 0) := by omega
+      have htake : List.take (n - 1) full = full := List.take_of_length_le (by omega)
+      simp only [hneg, if_false, Int.toNat_natCast, htake, List.size_toArray, List.length_append, List.length_cons,
+        List.length_nil, List.length_replicate]
+      have hsz : full.length ≤ full.length + (0 + 1) + (n - (full.length + 1)) := by omega
+      simp only [hsz, if_true, List.append_assoc, List.take_left']
+    · have : full = [] := by
+        cases full with
+        | nil => rfl
+        | cons a t => simp at h0
+      subst this
+      simp
+
+/-- the strict test `nb > n` lets an item of exactly `n` bytes through: the `n − 1` bytes that fit and the terminating NUL
+    are appended (what the merged check `if (nb > 0) { if (nb > MAX_ITEM) …` would do) -/
+theorem itemStep_gt_pushes_terminator (n : Nat) (hn : 1 ≤ n) (out full : Bytes) (hL : full.length = n) :
+    itemStep n n n false out full = .ok (out ++ full.take (n - 1) ++ [0]) := by
+  unfold itemStep snprintfItem
+  have hb : ¬ n = 0 := by omega
+  have hk : ¬ (List.take (n - 1) full).length + 1 > n := by simp only [List.length_take]; omega
+  have h1 : ¬ ((full.length : Int) > (n : Int)) := by omega
+  have h0 : (full.length : Int) > 0 := by omega
+  simp only [hb, hk, if_false, R.ok_bind, h1, h0, if_true, Bool.false_eq_true]
+  unfold pushItem
+  have hneg : ¬ ((full.length : Int) < 0) := by omega
+  have hlen : (List.take (n - 1) full).length = n - 1 := by simp only [List.length_take]; omega
+  simp only [Int.toNat_natCast, List.size_toArray, List.length_append, List.length_cons,
+    List.length_nil, List.length_replicate, hlen, hL]
+  have hneg' : ¬ ((n : Int) < 0) := by omega
+  have hsz : n ≤ n - 1 + (0 + 1) + (n - (n - 1 + 1)) := by omega
+  simp only [hneg', hsz, if_false, if_true]
+  have e : List.take n (List.take (n - 1) full ++ [0] ++ List.replicate (n - (n - 1 + 1)) indeterminate)
+      = List.take (n - 1) full ++ [0] := by
+    have hl2 : (List.take (n - 1) full ++ [0]).length = n := by
+      simp only [List.length_append, hlen, List.length_cons, List.length_nil]; omega
+    rw [List.take_append, List.take_of_length_le (by omega), hl2, Nat.sub_self, List.take_zero, List.append_nil]
+  rw [e, List.append_assoc]
+
 example : scanformat [45, 48, 49, 50, 46, 51, 100, 65]
     = .ok { p := 6, width := [49, 50], precision := [51], form := [37, 45, 48, 49, 50, 46, 51, 108, 100] } ∧
     scanformat [45, 45, 45, 45, 45, 45, 100] = .panic ∧ scanformat [49, 50, 51, 100] = .panic := by decide
